@@ -161,7 +161,7 @@ func init() { vxRegister("VX_C14_DisconnectWhileLaunching", VX_C14_DisconnectWhi
 // a call (inside a pre-write hook) while the peer goes away and the session's
 // reader handles the disconnect. No unsynchronised conflicting accesses; the
 // call completes exactly once; the disconnect handling finishes.
-// args: kind(0 AsyncCall with a roomy channel, 1 channel of capacity 1)[, where(0 in the pre-write hook, 1 in the post-write hook)]
+// args: kind(0 AsyncCall with a roomy channel, 1 channel of capacity 1)[, where(0 in the pre-write hook, 1 in the post-write hook, 2 inside the transport write, which fails once released)]
 func VX_C14_DisconnectWhileLaunching(args []int) {
 	var log []string
 	pl := newVxPlugin("h", &log)
@@ -179,6 +179,15 @@ func VX_C14_DisconnectWhileLaunching(args []int) {
 	}
 	p := vxNewPeer(pl)
 	conn := newVxConn("cli:1", "srv:2")
+	if len(args) > 1 && args[1] == 2 {
+		// the launcher is inside the transport write, which then fails
+		hookStage = "-"
+		conn.preWrite = func([]byte) error {
+			entered <- struct{}{}
+			<-rel
+			return errVxClosed
+		}
+	}
 	s, st := p.ServeConn(conn)
 	vxAssume(st.OK())
 	vxWaitIdle()
